@@ -227,7 +227,7 @@ def free_sequence(ch, client):
 def run_case(data):
     ch = Chooser(data)
     r = Result()
-    mode = ch.weighted([(6, 'free'), (3, 'model+frames'), (2, 'model+bytes'), (1, 'model')])
+    mode = ch.weighted([(6, 'free'), (3, 'model+frames'), (2, 'model+bytes'), (1, 'model'), (3, 'model+blocks')])
     if mode == 'free':
         client = ch.bool()
         sc = bytesgen.Scenario()
@@ -244,6 +244,11 @@ def run_case(data):
                                    ((sid, [(b'x-t', b'1'), (b':status', b'200')]), {'end_stream': True})])
                     sc.prefix.append(('send_headers', bad[0], bad[1], 'refused'))
                     r.labels.add('refused-local-call-in-prefix')
+            if ch.chance(48):
+                # the application has cancelled one of its requests: what the server still sends on it, or
+                # promises on it, yields no event - and does not change what it may do on other streams
+                sc.prefix.append(('reset_stream', (ch.pick([1, 3, 5]),), {}, 'refused'))
+                r.labels.add('local-reset-in-prefix')
             if ch.chance(64):
                 # a request that never left: header text that cannot be encoded (the call raises)
                 sc.prefix.append(('send_headers', (7, REQ + [('x-bad-text', 'v\udcff')]), {}, 'refused'))
@@ -254,6 +259,8 @@ def run_case(data):
         frames = sc.frames
         if mode == 'model+frames':
             frames, _ = bytesgen.mutate_frames(ch, frames, 0 if sc.client else 1)
+        elif mode == 'model+blocks':
+            frames, _ = bytesgen.place_adversarial_blocks(ch, frames)
     stream = b''.join(frames)
     if mode == 'model+bytes':
         stream = bytesgen.mutate_bytes(ch, stream, 0 if sc.client else 24)
@@ -274,7 +281,12 @@ def run_case(data):
         o = ep.recv(chunk)
         if not o.ok:
             err = o.exc_name
-            break
+            if o.is_protocol_error():
+                break
+            # not a protocol error (C17 decides whether that may happen at all): the connection is not closed,
+            # so whatever it reports next still has to read as a message
+            r.labels.add('non-protocol-exception-then-more-input')
+            continue
         mon.feed(o.raw_events)
         if r.violations:
             break
